@@ -293,7 +293,19 @@ def gen(rng, i, tier):
             "mapseed": rng.randrange(10 ** 6), "malformed": malformed}
 
 
+_SHRINK = {"left": 1200}     # candidates a worker process may try in total (keeps a run with
+#                              many failing cases, e.g. under a mutation, within its time budget)
+
+
 def shrink(case):
+    for c in _shrink(case):
+        if _SHRINK["left"] <= 0:
+            return
+        _SHRINK["left"] -= 1
+        yield c
+
+
+def _shrink(case):
     for j in range(len(case["ops"])):
         if len(case["ops"]) > 1:
             c = dict(case)
